@@ -78,9 +78,15 @@ def shpk(p):
     strings = bytearray()
 
     def intern(s):
+        # a name that is a prefix of one already in the heap shares its storage (the record carries the length)
+        b = s.encode()
+        if p.get("share_prefixes") and b:
+            at = bytes(strings).find(b)
+            if at >= 0:
+                return at, len(b)
         o = len(strings)
-        strings.extend(s.encode() + b"\0")
-        return o, len(s)
+        strings.extend(b + b"\0")
+        return o, len(b)
 
     def rparams(lst):
         out = b""
